@@ -80,7 +80,7 @@ CLAIMED["C01"] = {
 CLAIMED["C02"] = {
     "text": "PyGen.tla brackets the tokens of every range-carrying node with B/E marks (the extent definition per node kind); generated programs are laid out under byte-moving layouts (multi-byte identifiers, CRLF, CR with tabs, BOM, comments and blank lines, missing final newline) and parsed by the all-nodes-with-ranges build; every marked node's range must equal the byte offsets of its marks, and the structural clauses (inside the input, character boundaries, start <= end, children inside parents except decorators, siblings ordered) are evaluated on every generated and corpus tree. CPython's line/column positions converted to byte offsets validate the marks on every program.",
     "design_ref": "DESIGN.md section 6 C02",
-    "note": "Ranges of f-string pieces and implicit concatenations are covered with C07; nodes that only carry ranges under all-nodes-with-ranges are checked structurally (no reference positions exist for them).",
+    "note": "Expressions inside f-string fields are checked with FString.tla's core bodies (each field expression's tree, ranges included, equals the expression parsed alone moved to its byte offset); ranges of the literal pieces of f-strings are not compared; nodes that only carry ranges under all-nodes-with-ranges are checked structurally (no reference positions exist for them).",
     "technique": "TLA+ generative grammar with range marks explored by TLC; TLC-generated programs under several layouts replayed into the parser (ranges vs marks); CPython cross-validation of the marks",
 }
 CLAIMED["C08"] = {
@@ -112,6 +112,12 @@ CLAIMED["C06"] = {
     "design_ref": "DESIGN.md section 6 C06",
     "note": "TLC integers are 32-bit: the numeric conversion itself (int(clean, radix), float(clean)) is the reference's; \\N{...} by sampled names; known finding F-C06-1 (U prefix kind marker).",
     "technique": "TLA+ specifications of literal decoding (escape rules, literal termination, numeric-literal automaton) explored exhaustively by TLC as generators with computed values; CPython cross-validation of the specification; values replayed into the parser",
+}
+CLAIMED["C07"] = {
+    "text": "FString.tla defines f-string bodies as sequences of literal items (text, non-ASCII, doubled braces, escapes incl. octal, hexadecimal and named ones, a backslash pair, ':' '!' '=' outside fields) and replacement fields: 38 expressions containing every character the field scanner treats specially (all bracket kinds, strings holding braces/colons/'!'/'=', '!=' '<=' '==' '>=' comparisons, walrus, lambda, nested f-strings with conversion and nested spec, a dict display needing the blank after '{', tuples with and without parentheses, starred, yield, conditional), conversions x 9 format specs (empty, text, nested fields, nested conversion, escape, non-ASCII), and the '=' form with and without blanks, in 8 literal forms (f/F/rf/fR/Rf/FR x four quote styles), alone or between plain/u/f neighbours (implicit concatenation). The specification computes Parts: merged text pieces (also across concatenated literals), fields with expression source, conversion code (repr default of the '=' form) and spec pieces, and the exact echoed text. TLC enumerates every body (all 109 items up to 2; 14 core items up to 3 quick / 4 thorough). Each case is validated against CPython's tree of the same source (0 disagreements), then the parser's JoinedStr must be exactly Parts and every field expression's tree, ranges included, must equal the expression parsed on its own moved to the byte offset of its text in the file (literal placed after a non-ASCII comment line inside 'x = (...)').",
+    "design_ref": "DESIGN.md section 6 C07",
+    "note": "Pre-PEP 701 rules (CPython 3.11 is the reference): an unparenthesised tuple in a field has the extent of the surrounding braces in the reference too; expressions with backslashes or the literal's own quote are outside the reference language; ranges of literal pieces are not compared.",
+    "technique": "TLA+ generative specification of f-string bodies with the reference decomposition computed in the spec; exhaustive TLC enumeration; CPython cross-validation; decomposition and field-expression trees/ranges replayed into the parser",
 }
 NOT_YET = {}
 
